@@ -130,8 +130,11 @@ fn lax_observe(c: &Case) -> Result<Vec<Obs>, String> {
     let from_lax = |f: lax::OpenHypergraph<L, L>, name: &str| -> Result<Plain, String> { B::<VecKind>::from_dev(&f.to_strict()).map_err(|e| format!("{}: {}", name, e)) };
     let lf = to_lax(&c.f);
     let ld = lf.dagger();
-    out.push(Obs::Exact("lax-dagger-swaps-interfaces", from_lax(ld.clone(), "lax dagger")?, c.f.dagger()));
-    out.push(Obs::Exact("lax-dagger-involution", from_lax(ld.dagger(), "lax dagger")?, c.f.clone()));
+    // exactness is observed on the lax fields themselves (strictifying would add a quotient, whose
+    // numbering of classes is free), the meaning up to isomorphism through to_strict
+    out.push(Obs::Accept("lax-dagger-swaps-interfaces-and-leaves-the-rest-untouched", ld.sources == lf.targets && ld.targets == lf.sources && ld.hypergraph == lf.hypergraph, true));
+    out.push(Obs::Accept("lax-dagger-involution", ld.dagger() == lf, true));
+    out.push(Obs::Iso("lax-dagger-swaps-interfaces", from_lax(ld.clone(), "lax dagger")?, c.f.dagger()));
     let mk = |k: &Cospan| lax::OpenHypergraph::<L, L>::spider(FiniteFunction::<VecKind> { table: VecArray(k.s.clone()), target: k.s_cod }, FiniteFunction::<VecKind> { table: VecArray(k.t.clone()), target: k.t_cod }, k.w.clone());
     // lax identities and symmetries are spiders too
     let ab: Vec<L> = c.a.iter().chain(c.b.iter()).copied().collect();
